@@ -8,7 +8,8 @@ def c11():
         units=[dict(kind="rc", driver="C11_life", shims=["tp_common.c", "tp_life.c"] + TP_CORE, variants=tp_variants,
                     scale={"quick": 1.0, "thorough": 10.0})],
         level="fault_enumeration",
-        rule=("rapidcheck life-cycle histories: create(1..16 threads, BIND2CPU/CLOEXEC) -> threads_create(skip_first) [-> attach_first from a "
+        rule=("rapidcheck life-cycle histories (optionally one thread - preferably the attached one - has a stop hook that takes 1.5 ms before it reports; "
+              "on a failed create every start hook that ran must be balanced by its stop hook): create(1..16 threads, BIND2CPU/CLOEXEC) -> threads_create(skip_first) [-> attach_first from a "
               "helper thread] -> in-flight work (messages incl. to the virtual thread, periodic 1 ms timer, readable pipe event) -> early "
               "shutdown_wait (EBUSY) / destroy from a pool thread (EDEADLK) -> shutdown {outside, from a pool thread, two threads at once, "
               "twice, skipped} -> late threads_create/attach_first (EBUSY) -> shutdown_wait {none, outside, pool thread first, two at once} "
